@@ -16,6 +16,12 @@ def run(ctx):
     for d in r["diags"]:
         if rendcheck.classify(d) == "raster":
             ctx.violation(rendcheck.vkey(d), "rasteriser calls differ from the mapped path: %s" % d.get("what"), d)
+    # "every drawn path reaches the rasteriser": register-machine programs (flat, gradient and unpainted paths in every
+    # order) - a path the machine paints must arrive, a path it does not paint must cause no activity
+    v = rendcheck.run_rend_traces(ctx, ["vm"], 60 if quick else 3000, sub="vm")
+    for d in v["diags"]:
+        if rendcheck.classify(d) == "raster" or (d.get("diag") == "vm" and d.get("what") in ("path enabling", "rasteriser activity where none is allowed")):
+            ctx.violation(rendcheck.vkey(d), "a path does not reach the rasteriser as drawn: %s" % d.get("what"), d)
     mc = ctx.mc[-1]
     # "drawn ... over the target rectangle", through the bundled vec.Rasterizer: the single-path programs of GEN_Pixels
     # rendered at an offset, with the rectangle overhanging the image's corner, and into empty rectangles (pixel level)
